@@ -11,7 +11,9 @@ CONSTANTS
   MaxFields = 3
   MaxCont = 2
   MaxTotal = 4
+  ShapeMode = 0
   ArmorHdrs = {0, 1, 2}
+  SigBools = {TRUE, FALSE}
   Emit = FALSE
 SPECIFICATION BSpec
 INVARIANT RoundTrip
